@@ -31,7 +31,7 @@ TRecv == /\ IsEv("recv")
          /\ LET e == Rec[l] IN
             IF dead THEN DeliverDead
             ELSE IF e.cls \in FrameClasses THEN Deliver(e.cls, e.canon)
-            ELSE IF e.cls = "eof" THEN DeliverEof
+            ELSE IF e.cls = "eof" THEN DeliverEof \/ Deliver("eof", e.canon)   \* the latter: a blank frame (acls)
             ELSE IF e.cls = "overflow" THEN DeliverOverflow
             ELSE IF e.cls = "io_err" THEN DeliverIoErr
             ELSE FALSE
